@@ -139,6 +139,9 @@ func (r *c05Runner) flush() error {
 		}
 		a := &aers[0]
 		tr := c05TxRec{Op: r.pendOps[j], Sender: c.u.acct(tx.Sender()), Fee: tx.SystemFee + tx.NetworkFee, Halt: a.VMState == vmstate.Halt, Res: -1}
+		if os.Getenv("VERIF_DEBUG") != "" {
+			fmt.Fprintf(os.Stderr, "aer op=%d halt=%v stack=%d fault=%q\n", r.pendOps[j], tr.Halt, len(a.Stack), a.FaultException)
+		}
 		if tr.Halt && len(a.Stack) == 1 {
 			if bi, ok := a.Stack[0].(stackitem.Bool); ok {
 				if bool(bi) {
